@@ -403,7 +403,7 @@ fn walk(pp: &mut ParsedPacket, sec: &str, incl_opt: bool, plan: &str) -> String 
 
 // ---- C16: barrier-scripted interleavings of failing table calls and error_description reads ------
 
-const ERR_KINDS: usize = 5;
+const ERR_KINDS: usize = 7;
 
 fn schedule(nthreads: usize, steps: &str) -> String {
     use std::ffi::CStr;
@@ -447,30 +447,7 @@ fn schedule(nthreads: usize, steps: &str) -> String {
                 let out = unsafe {
                     match act {
                         'f' => {
-                            let mut raw = [0u8; 256];
-                            let mut raw_len: usize = 0;
-                            let rc = match kind % ERR_KINDS {
-                                0 => {
-                                    let n = b"a..b";
-                                    (table.raw_name_from_str)(&mut raw, &mut raw_len, &mut c_err, n.as_ptr() as *const _, n.len())
-                                }
-                                1 => {
-                                    let n = [b'a'; 64];
-                                    (table.raw_name_from_str)(&mut raw, &mut raw_len, &mut c_err, n.as_ptr() as *const _, n.len())
-                                }
-                                2 => {
-                                    let n = [b'a'; 300];
-                                    (table.raw_name_from_str)(&mut raw, &mut raw_len, &mut c_err, n.as_ptr() as *const _, n.len())
-                                }
-                                3 => {
-                                    let n = [0xc3u8, 0xa9];
-                                    (table.raw_name_from_str)(&mut raw, &mut raw_len, &mut c_err, n.as_ptr() as *const _, n.len())
-                                }
-                                _ => {
-                                    let txt = b"not a record\0";
-                                    (table.add_to_answer)(&mut pp, &mut c_err, txt.as_ptr() as *const _)
-                                }
-                            };
+                            let rc = failing_call(*kind, &mut c_err, &mut pp);
                             format!("rc={}", rc)
                         }
                         _ => {
@@ -521,9 +498,19 @@ unsafe fn failing_call(kind: usize, c_err: &mut *const dnssector::c_abi::CErr, p
             let n = [0xc3u8, 0xa9];
             (table.raw_name_from_str)(&mut raw, &mut raw_len, c_err, n.as_ptr() as *const _, n.len())
         }
-        _ => {
+        4 => {
             let txt = b"not a record\0";
             (table.add_to_answer)(pp, c_err, txt.as_ptr() as *const _)
+        }
+        5 => {
+            // the two longest descriptions the table can produce (a buffer sized for the usual ones would spill)
+            let txt = b"second.example. 0 IN A 1.2.3.4\0";
+            (table.add_to_question)(pp, c_err, txt.as_ptr() as *const _)
+        }
+        _ => {
+            let bad = [0u8, 1, b'a', 0];
+            let src = [1u8, b'q', 0];
+            (table.rename_with_raw_names)(pp, c_err, bad.as_ptr(), bad.len(), src.as_ptr(), src.len(), false)
         }
     }
 }
@@ -623,7 +610,47 @@ fn purity(opx: &str, opy: &str) -> String {
     format!("SAME:{}", r1)
 }
 
+/// C17: f(x) on a fresh thread, and f(x) on a thread that first ran f(y) once and f(z) n times, must be byte-identical
+/// (n is chosen around 2^8 and 2^16: generation counters and epochs that wrap).
+fn purity_long(n: usize, opx: &str, opy: &str, opz: &str) -> String {
+    let fresh = |op: &str| -> String {
+        let mut c = Ctx { pp: None };
+        run_op(&mut c, op)
+    };
+    let ox = opx.to_string();
+    let r1 = match std::thread::spawn(move || { let mut c = Ctx { pp: None }; run_op(&mut c, &ox) }).join() {
+        Ok(r) => r,
+        Err(_) => return "PANIC-IN-THREAD".to_string(),
+    };
+    let (ox, oy, oz) = (opx.to_string(), opy.to_string(), opz.to_string());
+    let r2 = match std::thread::spawn(move || {
+        let fresh = |op: &str| -> String {
+            let mut c = Ctx { pp: None };
+            run_op(&mut c, op)
+        };
+        let _ = fresh(&oy);
+        for _ in 0..n {
+            let _ = fresh(&oz);
+        }
+        fresh(&ox)
+    })
+    .join()
+    {
+        Ok(r) => r,
+        Err(_) => return "PANIC-IN-THREAD".to_string(),
+    };
+    let _ = fresh;
+    if r1 != r2 {
+        return format!("DIFF-AFTER-LONG:{}|{}", r1, r2);
+    }
+    format!("SAME:{}", r1)
+}
+
 fn run_op(ctx: &mut Ctx, op: &str) -> String {
+    if let Some(rest) = op.strip_prefix("HL|") {
+        let f: Vec<&str> = rest.splitn(4, '|').collect();
+        return purity_long(f[0].parse().unwrap(), f[1], f[2], f[3]);
+    }
     if let Some(rest) = op.strip_prefix("HP|") {
         let (x, y) = rest.split_once('|').unwrap();
         return purity(x, y);
